@@ -86,6 +86,13 @@ def gen_specs(rep, tier):
             spec(kind, [None if q is None else U.shape(kind, q[0], q[1], q[0], q[1] + (kind != 'point'))
                         for q in quad], 'point', quad, rng.choice(['g', 'h']), [0, 3, 3, 10],
                  [1, 3], list(range(1, 21)))
+    # 0c. npartitions omitted: 8 are requested whatever the input has (1, 8, 9, 12, 20 input
+    #     partitions, some of them empty)
+    els24, k24, els24h = C06.big_frame('point', 24)
+    for cuts in ([0, 24], list(range(0, 24, 3)) + [24], list(range(0, 18, 2)) + [24],
+                 [0, 0] + list(range(2, 22, 2)) + [24], list(range(0, 20)) + [24],
+                 [0, 0, 0] + list(range(1, 17)) + [20, 24, 24]):
+        spec('point', els24, k24, els24h, 'g', cuts, [None], [15])
     # A. one frame, every input partitioning, a few (npartitions, p)
     for kind in (['point', 'polygon'] if quick else G.KINDS):
         els = C06.template(kind, 0)
@@ -131,6 +138,13 @@ def gen_specs(rep, tier):
         seq(kind, 1 - t, 'h', [['pack', 2, 15], ['set_geometry', 'g'], ['pack', 2, rng.choice([5, 20])],
                                ['set_geometry', 'h'], ['pack', 3, 15]])
         seq(kind, t, 'g', [['pack', 3, p1], ['pack', 2, p1], ['set_geometry', other], ['pack', 2, 5]])
+        # cx / cx_partitions result (a box cutting through a partition) -> pack: the keys are
+        # taken against the SELECTED rows' own total bounds
+        cutbox = [[1.5, 4.5, 0.5, 3.5], [2.5, 7.5, 2.5, 7.5], [0, 3.5, 0, 8]][ki % 3]
+        seq(kind, t, 'g', [['cx', cutbox], ['pack', rng.randint(1, 3), rng.choice([5, 15, 20])]])
+        seq(kind, t, rng.choice(['g', 'h']), [['cxp', cutbox], ['pack', 2, rng.choice([5, 15])]])
+        seq(kind, 1 - t, 'g', [['cache', 'sindex'], ['cx', [2.5, 7.5, 2.5, 7.5]], ['pack', 2, 15],
+                               ['cx', [0, 6.5, 0, 6.5]], ['pack', 2, 15]])
         how = ['lazy', 'compute', 'pack', 'total_bounds'][(ki + rep.seed) % 4]
         seq(kind, t, 'g', [['sibling', 'h', how], ['pack', n1, p1]])
         seq(kind, 1 - t, 'h', [['cache', 'sindex'], ['sibling', 'g', 'lazy'], ['pack', 2, 15],
@@ -346,15 +360,28 @@ def run_seq(ctx, spec, df, X):
             elif op[0] == 'set_geometry':
                 X = X.set_geometry(op[1])
                 ref = ref.set_geometry(op[1])
+            elif op[0] == 'cx':
+                xs, ys = U.key_slices(tuple(op[1]))
+                X = X.cx[xs, ys]
+                ref = ref.cx[xs, ys]
+                rep.count('cx-before-pack')
+            elif op[0] == 'cxp':
+                xs, ys = U.key_slices(tuple(op[1]))
+                X = X.cx_partitions[xs, ys]
+                ref = X.compute()           # whole partitions: which ones is C06's business
+                rep.count('cx_partitions-before-pack')
             elif op[0] == 'sibling':
                 # derive another frame from X (X itself must stay what it was)
                 other = X.set_geometry(op[1])
-                if op[2] == 'compute':
-                    other.compute()
-                elif op[2] == 'pack':
-                    other.pack_partitions(npartitions=2, p=5).compute()
-                elif op[2] == 'total_bounds':
-                    other.geometry.total_bounds
+                try:
+                    if op[2] == 'compute':
+                        other.compute()
+                    elif op[2] == 'pack':
+                        other.pack_partitions(npartitions=2, p=5).compute()
+                    elif op[2] == 'total_bounds':
+                        other.geometry.total_bounds
+                except Exception as e:   # the sibling is only there to exist; its own packing
+                    rep.count('sibling-op-raised:' + type(e).__name__)   # is checked elsewhere
                 rep.count('sibling-derived')
                 if U.active_name(X) != U.active_name(ref):
                     rep.violation('sibling-changed-parent',
